@@ -263,6 +263,7 @@ def classifier_inference_after_load(c):
     it.torch_ns._table["argmax"] = Model(lambda itp, v, dim=None: T(AMX(v.f), "int", None, None, v.eshape), "torch.argmax")
     it.torch_ns._table["bincount"] = Model(lambda itp, v, w=None, minlength=0: T(BIN(v.f), "int", None, None, tz.Shape((minlength,))), "torch.bincount")
     it.torch_ns._table["mm"] = Model(lambda itp, a, b: T(MM(a.f, b.f), "float", None, None, a.eshape), "torch.mm")
+    it.torch_ns._table["matmul"] = it.torch_ns._table["mm"]  # the same product written with matmul is the same function
     saved_rearrange = it.namespaces["einops"]._table["rearrange"]
     it.namespaces["einops"]._table["rearrange"] = lambda x, pat, **k: x
     T.view = lambda self, *a: self
